@@ -557,6 +557,15 @@ func handleReuseOldCheckpoint(srcInfo string, localPath string, term uint64, ind
 	return reused, newPath
 }
 
+// isTransferredCheckpointComplete: the checkpoint directory is whole and was filled from srcInfo
+func isTransferredCheckpointComplete(checkpointPath string, srcInfo string) bool {
+	if !rockredis.IsCheckpointComplete(checkpointPath) {
+		return false
+	}
+	d, err := ioutil.ReadFile(path.Join(checkpointPath, "source_node_info"))
+	return err == nil && string(d) == srcInfo
+}
+
 func postFileSync(newPath string, srcInfo string) {
 	// write source node info to allow reuse next time
 	ioutil.WriteFile(path.Join(newPath, "source_node_info"), []byte(srcInfo), common.FILE_PERM)
@@ -981,19 +990,28 @@ func (kvsm *kvStoreSM) handleCustomRequest(fromClusterSyncer bool, req *Internal
 			srcPath := path.Join(rockredis.GetBackupDir(p.SyncPath),
 				rockredis.GetCheckpointDir(p.RemoteTerm, p.RemoteIndex))
 
-			err = rockredis.MarkCheckpointIncomplete(path.Join(localPath,
-				rockredis.GetCheckpointDir(p.RemoteTerm, p.RemoteIndex)))
-			_, newPath := handleReuseOldCheckpoint(srcInfo, localPath, p.RemoteTerm, p.RemoteIndex, 0)
+			if isTransferredCheckpointComplete(path.Join(localPath,
+				rockredis.GetCheckpointDir(p.RemoteTerm, p.RemoteIndex)), srcInfo) {
+				// this very snapshot has already been transferred completely from the same source (the
+				// request was repeated, or it is replayed from the raft log after a restart): there is
+				// nothing to fetch, and a failing fetch (the source may be gone by now) must not spoil
+				// the checkpoint the following apply request needs
+				kvsm.Infof("transfer remote snap request: %v already transferred to local: %v", p, localPath)
+			} else {
+				err = rockredis.MarkCheckpointIncomplete(path.Join(localPath,
+					rockredis.GetCheckpointDir(p.RemoteTerm, p.RemoteIndex)))
+				_, newPath := handleReuseOldCheckpoint(srcInfo, localPath, p.RemoteTerm, p.RemoteIndex, 0)
 
-			if err == nil && !common.IsConfSetted(common.ConfIgnoreRemoteFileSync) {
-				err = common.RunFileSync(p.SyncAddr,
-					srcPath,
-					localPath, stop,
-				)
-				postFileSync(newPath, srcInfo)
-			}
-			if err == nil {
-				rockredis.MarkCheckpointComplete(newPath)
+				if err == nil && !common.IsConfSetted(common.ConfIgnoreRemoteFileSync) {
+					err = common.RunFileSync(p.SyncAddr,
+						srcPath,
+						localPath, stop,
+					)
+					postFileSync(newPath, srcInfo)
+				}
+				if err == nil {
+					rockredis.MarkCheckpointComplete(newPath)
+				}
 			}
 			if err != nil {
 				kvsm.Infof("transfer remote snap request: %v to local: %v failed: %v", p, localPath, err)
